@@ -764,6 +764,9 @@ def mixed_cases(draw, tier):
 RULE_ROUND8 = ' value_map lists padded to 10 / 100 / 1000 entries (indexes of 2-4 digits); string data also as instances of a str subclass with own __str__ / __format__. Part c-locale: reader, writer and mixed-docs once more in a child interpreter with LC_ALL=C, UTF-8 mode and locale coercion off (plain files opened without an explicit encoding are ASCII there).'
 RULE = RULE + RULE_ROUND8
 
+RULE_ROUND9 = ' A third of the writer cases move the clone that was registered last in front of an earlier occurrence (three occurrences directed); reader / writer profile typed_obj_pop.'
+RULE = RULE + RULE_ROUND9
+
 PARTS = [
     Part("mutated-documents", run_mutated, strategy=lambda tier: mutated_cases(tier), n={"quick": 500, "thorough": 120000}),
     Part("writer", run_writer, strategy=lambda tier: writer_cases(tier), n={"quick": 500, "thorough": 120000}),
